@@ -122,6 +122,20 @@ func runMalformed(w *lib.Writer, r *lib.Rand, tier string) {
 			jobs = append(jobs, job{mutate(cr, sampleProgram(cr)), "mutation"})
 		}
 	}
+	// several gotos without a visible label in one function: a compile error whose value (which goto
+	// it names) must be the same on every load
+	for i := 0; i < total/400+20; i++ {
+		cr := r.Fork()
+		src := sampleProgram(cr)
+		pre := ""
+		for k := cr.Range(2, 4); k > 0; k-- {
+			pre += fmt.Sprintf("goto nolabel%d%s", cr.Intn(5), []string{" ", "\n", ";"}[cr.Intn(3)])
+		}
+		if cr.Bool() {
+			pre = "local function f() " + pre + "end "
+		}
+		jobs = append(jobs, job{append([]byte(pre), src...), "dangling-gotos"})
+	}
 	for i := 0; i < ntrunc; i++ { // every truncation of a sample of programs
 		cr := r.Fork()
 		src := sampleProgram(cr)
@@ -137,6 +151,10 @@ func runMalformed(w *lib.Writer, r *lib.Rand, tier string) {
 	for i, j := range jobs {
 		pick[i] = r.Chance(coqShare) && len(j.src) <= 600
 		rqs[i] = Request{ID: i, Src: HB(j.src), WantToks: pick[i], LimitMs: 2000}
+		if j.origin == "dangling-gotos" || i%10 == 0 {
+			rqs[i].Repeat = 4
+			rqs[i].LimitMs = 4000
+		}
 	}
 	res := runAll(rqs, workers)
 	// a third of the inputs once more through the one-byte-per-Read reader: same class, same tokens
